@@ -330,6 +330,8 @@ func checkC19(p *core.Program, r *core.Report) {
 	r.Rule("R3", "positive direction: on the non-redacting edge withoutQuery passes scheme, path and display to urns.NewFromParts (only the query is dropped)")
 	r.Rule("R4", "the policy in force is the session's current one: session.MergedEnvironment (the environment every template is evaluated under) returns a wrapper built by flows.NewSessionEnvironment on that call; if it returns a value kept in a session field instead, every function that writes session.env also writes that field")
 	c19R4(p, r)
+	r.Rule("R5", "a changed policy is a changed environment: environment.Equal, which decides whether a resume's environment replaces the session's, compares the marshalled form of both or reads the redaction policy of both")
+	c19R5(p, r)
 	r.Assumption("values that reach the context from outside the engine (trigger params, webhook responses, message text) are data, not URN-typed")
 
 	// ------------------------------------------------------------------ R1a sinks
@@ -664,4 +666,30 @@ func c19R4(p *core.Program, r *core.Report) {
 	sort.Strings(missing)
 	r.Check(len(missing) == 0, "R4", "session.MergedEnvironment/fresh", p.Pos(me.Pos()), "cached wrapper is reset wherever the environment is replaced",
 		"session.MergedEnvironment returns a wrapper kept in the session, but "+strings.Join(missing, ", ")+": after a resume with a new environment, templates are still evaluated under the old redaction policy")
+}
+
+func c19R5(p *core.Program, r *core.Report) {
+	eq := p.Method("envs", "environment", "Equal")
+	if eq == nil {
+		r.Errorf("envs.environment.Equal not found")
+		return
+	}
+	marshals, field, getter := 0, false, false
+	core.EachInstr(eq, false, func(_ *ssa.Function, in ssa.Instruction) {
+		switch x := in.(type) {
+		case *ssa.FieldAddr:
+			if core.FieldAddrVar(x).Name() == "redactionPolicy" {
+				field = true
+			}
+		case ssa.CallInstruction:
+			if x.Common().IsInvoke() && x.Common().Method.Name() == "RedactionPolicy" {
+				getter = true
+			}
+			if o := core.CalleeObj(x.Common()); o != nil && (strings.HasSuffix(core.ObjName(o), "jsonx.Marshal") || core.ObjName(o) == "encoding/json.Marshal") {
+				marshals++
+			}
+		}
+	})
+	r.Check(marshals >= 2 || (field && getter), "R5", "environment.Equal/sees-redaction-policy", p.Pos(eq.Pos()), map[bool]string{true: "compares the marshalled environments", false: "reads the redaction policy of both"}[marshals >= 2],
+		"environment.Equal does not look at the redaction policy: a resume whose environment differs only in the policy counts as unchanged, so where the new environment is installed only when it differs (or announced only then) the session keeps evaluating under the old policy")
 }
